@@ -190,10 +190,14 @@ def file_routes(rep, base):
                 else:
                     argv += ["--stdout", "-"]
                     stdin = m["png"]
-                p = subprocess.run([cli] + argv, input=stdin, stdout=subprocess.PIPE, stderr=subprocess.PIPE, timeout=120)
-                rep.evaluations += 1
-                got = p.stdout if dest is None else (open(dest, "rb").read() if os.path.exists(dest) else None)
                 desc = {"argv": argv, "input_hex": m["png"].hex(), "route": route, "cases": []}
+                rep.evaluations += 1
+                try:
+                    p = subprocess.run([cli] + argv, input=stdin, stdout=subprocess.PIPE, stderr=subprocess.PIPE, timeout=120)
+                except subprocess.TimeoutExpired:
+                    rep.violation("C13:does-not-terminate", f"`--timeout 0` via {route}: the executable did not return within 120 s", desc)
+                    return            # one hanging run is enough; do not wait two minutes for each of the others
+                got = p.stdout if dest is None else (open(dest, "rb").read() if os.path.exists(dest) else None)
                 if p.returncode != 0:
                     rep.violation("C13:file-route-failed", f"`--timeout 0` via {route}: exit status {p.returncode}: {p.stderr[-200:]!r}", desc)
                     continue
